@@ -603,6 +603,29 @@ class World:
                 self.refs.clear()
                 self.stats["probe:background_knockout"] += 1
             return
+        if kind == "edit_genes":
+            gid = op.get("g")
+            if gid and gid in self.ref.genes and self.model.genes.has_id(gid):
+                # a gene is taken out of the rules between two analysis calls (rules are rewritten in place): later calls see the new rules
+                import types
+
+                from cobra.manipulation import remove_genes
+
+                remove_genes(self.model, [gid], remove_reactions=False)
+                env = types.SimpleNamespace()
+                self.ref.apply({"op": "remove_genes", "genes": [gid], "remove_reactions": False}, env)
+                for rid in getattr(env, "resync_rules", ()):
+                    if rid in self.ref.rxns and self.model.reactions.has_id(rid):
+                        try:
+                            self.ref.rxns[rid]["rule"] = gprtree.parse(self.model.reactions.get_by_id(rid).gene_reaction_rule)
+                        except ValueError:
+                            pass
+                self.exact_cache.clear()
+                self.refs.clear()
+                if self.user_ctx_snap is not None:
+                    self.user_ctx_snap = S.snap(self.model)
+                self.stats["probe:gene_removed_from_rules_between_calls"] += 1
+            return
         if kind == "edit":
             rid = op.get("r")
             if rid and self.model.reactions.has_id(rid):
@@ -1216,6 +1239,8 @@ def gen_ops(rng, W, prop, sw, run_cfg):
             if lb <= ub:
                 yield {"op": "age", "r": rng.choice(sorted(W.ref.rxns)), "dir": rng.choice(["max", "min"]), "plain": True}
                 yield {"op": "edit", "r": r, "lb": lb, "ub": ub}
+        if ci > 0 and W.ref.genes and rng.random() < 0.25:
+            yield {"op": "edit_genes", "g": rng.choice(sorted(W.ref.genes))}
         kind, a = _gen_call(rng, W, prop)
         if kind == "gapfill" and a.get("blocks") and not pre_fix:
             yield {"op": "edit", "r": a["blocks"], "lb": 0, "ub": 0}
